@@ -215,6 +215,15 @@ ADDENDA5 = {
     'C19': ' Also (C19-3): the handler that closes a batch catches queue.Empty only; no positive floor on the remaining time.',
     'C20': ' Also (C20-3): the daemon flag of the log-reader thread evaluates to False for a process that is not a daemon.',
 }
+# rules added in round r8 (DESIGN.md 11.3)
+ADDENDA6 = {
+    'C06': ' Also: the routing threads of compound servlets hand no exception value to switch() or a member (C06-16).',
+    'C07': ' Also (C07-8): the admission wait of every pass is what is left of the timeout.',
+    'C09': ' Also: the timeout of SingleLane.get / put reaches the condition wait as given (C09-13); nothing comes off the buffer into a batch untested (C09-1).',
+    'C14': ' Also: the receipt of the request is covered by the handler that answers #TRACEBACK (C14-16); the exposed names come from the hosted object (C14-17).',
+    'C18': ' Also: the pipe methods hand their parameters on unchanged (C18-8); write_record puts no clock on drain() (C18-17).',
+    'C20': ' Also: SpawnContext.get_context returns the package\'s own context for None / "spawn" (C20-8).',
+}
 COMMON_NOTE = COMMON_NOTE + (
     ' Before the rules run, the syntax tree (never the files) is normalised: while/next loops are read as for loops, functions the rules look up by name that were renamed consistently are mapped back through body fingerprints (anchors.json), '
     'calls of helpers that do not exist in the confirmed tree are read in place when that is exact, assignment expressions are desugared, annotated assignments, import aliases and written-out increments are read as their plain forms, locals / temporaries / module constants that the confirmed tree does not have are read as what they stand for, and locals, private attributes and classes that were renamed consistently are read under their recorded names; every name mapping is printed and recorded in the evidence notes.'
@@ -239,6 +248,8 @@ def main():
                 text = text + ADDENDA4[pid]
             if pid in ADDENDA5:
                 text = text + ADDENDA5[pid]
+            if pid in ADDENDA6:
+                text = text + ADDENDA6[pid]
             checks.append(
                 {
                     'property_id': pid,
